@@ -12,8 +12,10 @@ use std::str::FromStr;
 
 pub struct C12;
 
-/// Versions in strictly increasing Debian order (epochs, revisions, '~').
-pub const POOL: [&str; 8] = ["0.9", "1.0~rc1", "1.0", "1.0-1", "1.0-1+b1", "1.1", "1:0.1", "2:0~"];
+/// Versions in non-decreasing Debian order (epochs, revisions, '~'); RANK gives the order, equal ranks are equal
+/// versions under Debian ordering (an absent epoch is epoch 0, an absent revision sorts as revision 0).
+pub const POOL: [&str; 11] = ["0.9", "1.0~rc1", "1.0", "0:1.0", "1.0-1", "1.0-1+b1", "1.1", "0:1.1", "1:0.1", "1:0.1-0", "2:0~"];
+pub const RANK: [u8; 11] = [0, 1, 2, 2, 3, 4, 5, 5, 6, 6, 7];
 pub const PKGS: [&str; 3] = ["a", "b", "c"];
 
 #[derive(Debug, Clone, PartialEq, Eq, Hash)]
@@ -32,13 +34,16 @@ fn reference_alt(a: &Alt, installed: &[Option<usize>; 3]) -> bool {
     match (installed[a.pkg], &a.cons) {
         (None, _) => false,
         (Some(_), None) => true,
-        (Some(have), Some((op, want))) => match op {
-            Op::Lt => have < *want,
-            Op::Le => have <= *want,
-            Op::Eq => have == *want,
-            Op::Ge => have >= *want,
-            Op::Gt => have > *want,
-        },
+        (Some(have), Some((op, want))) => {
+            let (have, want) = (RANK[have], RANK[*want]);
+            match op {
+                Op::Lt => have < want,
+                Op::Le => have <= want,
+                Op::Eq => have == want,
+                Op::Ge => have >= want,
+                Op::Gt => have > want,
+            }
+        }
     }
 }
 
@@ -61,7 +66,7 @@ fn check(case: &Case) -> CheckResult {
     // trusted base: the version crate orders the pool as Debian policy does
     for i in 0..POOL.len() {
         for j in 0..POOL.len() {
-            if v(i).cmp(&v(j)) != i.cmp(&j) {
+            if v(i).cmp(&v(j)) != RANK[i].cmp(&RANK[j]) {
                 return fail("infra/trusted-base", format!("debversion orders {} vs {} differently from Debian policy", POOL[i], POOL[j]));
             }
         }
@@ -136,11 +141,11 @@ fn check(case: &Case) -> CheckResult {
 }
 
 // ---- enumeration
-const TABLE1: u64 = (1 + 5 * 8) * 9; // one alternative: constraint x installed(a)
+const TABLE1: u64 = (1 + 5 * 11) * 12; // one alternative: constraint x installed(a)
 fn alt8(i: usize) -> Alt {
     // pkg in {a,b} x constraint in {none, >= v3, << v3, = v3}
     let pkg = i % 2;
-    let cons = [None, Some((Op::Ge, 3)), Some((Op::Lt, 3)), Some((Op::Eq, 3))][i / 2].clone();
+    let cons = [None, Some((Op::Ge, 4)), Some((Op::Lt, 4)), Some((Op::Eq, 4))][i / 2].clone();
     Alt { pkg, cons }
 }
 fn entry72(i: usize) -> Vec<Alt> {
@@ -158,9 +163,9 @@ impl PropImpl for C12 {
         "C12"
     }
     fn rule(&self) -> String {
-        "cases are (field, installed assignment): fields of 0-4 entries x 1-3 alternatives over packages {a,b,c}, each unversioned or (op, version) with all five operators and a pool of 8 versions in \
-         known Debian order (0.9 < 1.0~rc1 < 1.0 < 1.0-1 < 1.0-1+b1 < 1.1 < 1:0.1 < 2:0~); installed: per package absent or a pool version. (E) the full decision table of one alternative \
-         (41 constraints x 9 installed states) and all 1-2 entry x 1-2 alternative nestings over two packages x 16 assignments (84096). Oracle: a reference evaluator written from the statement; \
+        "cases are (field, installed assignment): fields of 0-4 entries x 1-3 alternatives over packages {a,b,c}, each unversioned or (op, version) with all five operators and a pool of 11 versions in \
+         known Debian order (0.9 < 1.0~rc1 < 1.0 = 0:1.0 < 1.0-1 < 1.0-1+b1 < 1.1 = 0:1.1 < 1:0.1 = 1:0.1-0 < 2:0~); installed: per package absent or a pool version. (E) the full decision table of one alternative \
+         (56 constraints x 12 installed states) and all 1-2 entry x 1-2 alternative nestings over two packages x 16 assignments (84096). Oracle: a reference evaluator written from the statement; \
          lossless (parsed and constructed) and lossy (parsed and constructed) evaluators, Entry/Relation level, and the map / closure / (name, version) lookup forms must all agree with it. \
          Non-trivial: a versioned alternative whose package is installed. Distinct by hash of (field, assignment).".into()
     }
@@ -178,15 +183,15 @@ impl PropImpl for C12 {
     }
     fn from_enum(&self, _ctx: &mut Ctx, _tier: Tier, space: usize, index: u64) -> Case {
         if space == 0 {
-            let c = (index / 9) as usize;
-            let inst = (index % 9) as usize;
+            let c = (index / 12) as usize;
+            let inst = (index % 12) as usize;
             let cons = if c == 0 { None } else { Some((Op::ALL[(c - 1) % 5], (c - 1) / 5)) };
             Case { entries: vec![vec![Alt { pkg: 0, cons }]], installed: [if inst == 0 { None } else { Some(inst - 1) }, None, None], origin: "table" }
         } else {
             let asg = (index % 16) as usize;
             let f = (index / 16) as usize;
             let entries = if f < 72 { vec![entry72(f)] } else { vec![entry72((f - 72) / 72), entry72((f - 72) % 72)] };
-            let lvl = |x: usize| [None, Some(2), Some(3), Some(4)][x];
+            let lvl = |x: usize| [None, Some(3), Some(4), Some(5)][x];
             Case { entries, installed: [lvl(asg % 4), lvl(asg / 4), None], origin: "nesting" }
         }
     }
@@ -216,7 +221,8 @@ impl PropImpl for C12 {
             if let (Some((op, w)), Some(h)) = (&a.cons, case.installed[a.pkg]) {
                 nt = true;
                 ctx.label(match op { Op::Lt => "op:<<", Op::Le => "op:<=", Op::Eq => "op:=", Op::Ge => "op:>=", Op::Gt => "op:>>" });
-                ctx.label(if h < *w { "installed:lower" } else if h == *w { "installed:equal" } else { "installed:higher" });
+                ctx.label(if RANK[h] < RANK[*w] { "installed:lower" } else if RANK[h] == RANK[*w] { "installed:equal" } else { "installed:higher" });
+                ctx.label_if(h != *w && RANK[h] == RANK[*w], "installed:equal-but-spelled-differently");
                 ctx.label_if(POOL[*w].contains(':') != POOL[h].contains(':'), "epoch-vs-no-epoch");
                 ctx.label_if(POOL[*w].contains('~') || POOL[h].contains('~'), "tilde");
             }
